@@ -5,10 +5,13 @@ kept in lock-step).  Because jinns objects are frozen pytrees, a reached state c
 extended along several operations without replaying its history.
 
 explore() walks *every* word over the enabled operations up to `depth`
-(depth-first, operations in the given simplest-first order) and evaluates the
+(breadth-first, operations in the given simplest-first order, so the first
+counterexample is a shortest one) and evaluates the
 lock-step comparison + invariants in `step`.  Pruning on the canonical form is
 optional and off by default (see DESIGN 2.1)."""
 from __future__ import annotations
+
+from collections import deque
 
 
 class Stats:
@@ -42,9 +45,9 @@ def explore(init_state, ops_of, step, canon, depth, stats=None, prune=False, out
     """
     st = stats or Stats()
     st.canon.add(canon(init_state))
-    stack = [(init_state, [])]
-    while stack:
-        state, hist = stack.pop()
+    queue = deque([(init_state, [])])
+    while queue:
+        state, hist = queue.popleft()
         ops = ops_of(state, hist) if len(hist) < depth else []
         if not ops:
             st.traces += 1
@@ -52,7 +55,6 @@ def explore(init_state, ops_of, step, canon, depth, stats=None, prune=False, out
             if st.sample_trace is None or len(hist) > len(st.sample_trace):
                 st.sample_trace = list(hist)
             continue
-        # push in reverse so that the first (simplest) op is explored first
         succ = []
         for op in ops:
             new_state, viols = step(state, op, hist)
@@ -73,5 +75,5 @@ def explore(init_state, ops_of, step, canon, depth, stats=None, prune=False, out
                 st.traces += 1
                 continue
             succ.append((new_state, h2))
-        stack.extend(reversed(succ))
+        queue.extend(succ)
     return st
